@@ -25,11 +25,14 @@ import (
 	"github.com/np-guard/netpol-analyzer/pkg/cli"
 	"github.com/np-guard/netpol-analyzer/pkg/logger"
 	"github.com/np-guard/netpol-analyzer/pkg/manifests/fsscanner"
+	"github.com/np-guard/netpol-analyzer/pkg/manifests/parser"
 	"github.com/np-guard/netpol-analyzer/pkg/netpol/connlist"
 	"github.com/np-guard/netpol-analyzer/pkg/netpol/diff"
+	"github.com/np-guard/netpol-analyzer/pkg/netpol/eval"
 
 	corev1 "k8s.io/api/core/v1"
 	metav1 "k8s.io/apimachinery/pkg/apis/meta/v1"
+	"k8s.io/apimachinery/pkg/types"
 
 	"verifsim/job"
 )
@@ -119,6 +122,8 @@ func runStep(j *job.Job, i int, h *history) (ev job.Event) {
 		h.op(st, &ev)
 	case job.Query:
 		h.query(st, &ev)
+	case job.EvalAll:
+		stepEvalAll(st, &ev)
 	default:
 		panic("simnode: unknown step kind " + st.Kind)
 	}
@@ -358,4 +363,54 @@ func stepDiff(st *job.Step, ev *job.Event, keep bool) {
 	if keep {
 		ev.Out = out
 	}
+}
+
+// stepEvalAll mirrors what the eval command does with a directory (pkg/cli/evaluate.go: scan, parse,
+// FilterObjectsList by the two pods, InsertObject in document order, CheckIfAllowed) for many queries.
+// It exists for crash hunting only; witnesses are confirmed through the real eval command.
+func stepEvalAll(st *job.Step, ev *job.Event) {
+	infos, _ := fsscanner.GetResourceInfosFromDirPath([]string{st.Dir}, true, false)
+	objs, _ := parser.ResourceInfoListToK8sObjectsList(infos, quietLogger(), true)
+	for qi, q := range st.Queries {
+		ev.QueryAt = qi
+		var pods []types.NamespacedName
+		for _, p := range []string{q[1], q[0]} {
+			if i := strings.Index(p, "/"); i > 0 {
+				pods = append(pods, types.NamespacedName{Namespace: p[:i], Name: p[i+1:]})
+			}
+		}
+		pe := eval.NewPolicyEngine()
+		failed := false
+		for _, o := range parser.FilterObjectsList(objs, pods) {
+			var err error
+			switch o.Kind {
+			case parser.Pod:
+				err = pe.InsertObject(o.Pod)
+			case parser.Namespace:
+				err = pe.InsertObject(o.Namespace)
+			case parser.NetworkPolicy:
+				err = pe.InsertObject(o.NetworkPolicy)
+			case parser.AdminNetworkPolicy:
+				err = pe.InsertObject(o.AdminNetworkPolicy)
+			case parser.BaselineAdminNetworkPolicy:
+				err = pe.InsertObject(o.BaselineAdminNetworkPolicy)
+			}
+			if err != nil {
+				failed = true
+				break
+			}
+		}
+		if failed {
+			ev.Answers = append(ev.Answers, "error")
+			continue
+		}
+		r, err := pe.CheckIfAllowed(q[0], q[1], q[2], q[3])
+		if err != nil {
+			ev.Answers = append(ev.Answers, "error")
+		} else {
+			ev.Answers = append(ev.Answers, fmt.Sprint(r))
+		}
+	}
+	ev.QueryAt = 0
+	ev.OK = true
 }
